@@ -20,7 +20,8 @@
    the conjunction of sw_p literals its derivation uses.  `world_prob` is the distribution semantics
    of such a DNF over independent facts (exact enumeration of the truth assignments of the facts
    that occur). *)
-From Coq Require Import ZArith QArith List Bool NArith String.
+From Coq Require Import ZArith QArith List Bool NArith.
+From Coq Require String.
 From PL.C32 Require Import ModelClauses.
 Import ListNotations.
 Open Scope Q_scope.
@@ -130,7 +131,7 @@ Definition and_dnf (d1 d2 : list expl) : list expl :=
   flat_map (fun e1 => map (fun e2 => e1 ++ e2) d2) d1.
 
 (* ------------------------------------------------------------------ the clauses the model was read from *)
-Open Scope string_scope.
+Import String. Open Scope string_scope.
 Definition expected_select_clauses : list clause := [
   mkClause (None)
     (A "select_uniform" [V 0; V 1; V 2; V 3])
